@@ -24,7 +24,8 @@ open CTM.Selection
 def sampleTable : RefTable :=
   { nGenes := 4, pairs := [⟨[0], [1, 2]⟩, ⟨[], [3]⟩, ⟨[2, 3], [0]⟩] }
 
-theorem sampleTable_wf : TableWF sampleTable := by
+/-- (non-vacuity of `TableWF`) -/
+example : TableWF sampleTable := by
   intro p hp
   simp only [sampleTable, List.mem_cons, List.not_mem_nil, or_false] at hp
   rcases hp with rfl | rfl | rfl <;> constructor <;> simp [sampleTable]
@@ -254,5 +255,89 @@ theorem wf_no_markers {nG n : Nat} {pairs : List Pair} {tie : Tie} {chosen : Lis
       simp at hm
 
 example : selectParent sampleThin [1] false 2 tieFirst = .ok [3] := by decide
+
+
+/-! ## indep -/
+
+/-- "The selection is the same for … any threshold deciding which parents are
+processed on the full table": for one parent, selection on the full thinned
+table with the sorted array of global pair indices (`spawn_copy`, behemoth
+path) and selection on the table restricted to the parent's pairs in
+`leaves_to_compare` order (`downsample_pairs_to_other`) choose the same genes,
+under any tie-breaking policy that looks at the utility array only (as
+`np.argsort(utility_array)` does).  The two ordered lists can differ in the
+order of the forced "desperate" prefix, hence `Perm` and not `=`. -/
+theorem indep {t : RefTable} {query leaves : List Nat} {n : Nat} {pol : List Int → Nat}
+    {th : Thinned} {a b : List Nat}
+    (ht : TableWF t) (hth : thin t query = .ok th)
+    (ha : selectParent th leaves true n (fun _ u => pol u) = .ok a)
+    (hb : selectParent th leaves false n (fun _ u => pol u) = .ok b) : a.Perm b := by
+  by_cases hne : leaves = []
+  · subst hne
+    simp only [selectParent, List.isEmpty_nil, if_true, Except.ok.injEq] at ha hb
+    rw [← ha, ← hb]
+  obtain ⟨psa, sta, hla, hra, hna⟩ := selectParent_ok hne ha
+  obtain ⟨psb, stb, hlb, hrb, hnb⟩ := selectParent_ok hne hb
+  obtain ⟨_, hpairs, _⟩ := thin_ok hth
+  obtain ⟨hpa, _⟩ := lookupPairs_spec _ _ hla
+  obtain ⟨hpb, _⟩ := lookupPairs_spec _ _ hlb
+  have hperm : psa.Perm psb := by
+    rw [hpa, hpb]
+    apply List.Perm.filterMap
+    simp only [localOrder, if_true, Bool.false_eq_true, if_false]
+    exact List.mergeSort_perm _ _
+  have hwf : ∀ p ∈ psb, PairWF th.kept.length p := by
+    intro p hp
+    rw [hpb, List.mem_filterMap] at hp
+    obtain ⟨k, _, hk⟩ := hp
+    have hmem := List.mem_of_getElem? hk
+    rw [hpairs, List.mem_map] at hmem
+    obtain ⟨q, hq, rfl⟩ := hmem
+    exact thinPair_wf (ht q hq)
+  have hsim := runState_perm hwf hperm hrb hra
+  rw [hna, hnb]
+  exact hsim.chosen.map _
+
+/-- … and therefore the result of `select_all_markers` does not depend on the
+behemoth cut-off: parent by parent the same genes are selected.  (The worker
+count is not even a parameter of the model: the workers share nothing; that
+part of the sentence is checked on the implementation for 1–4 workers.) -/
+theorem indep_cutoff {t : RefTable} {query : List Nat} {parents : List Parent} {c1 c2 : Nat}
+    {pol : Nat → List Int → Nat} {r1 r2 : List (Except Err (List Nat))}
+    (ht : TableWF t)
+    (h1 : selectAll t query parents c1 (fun i _ u => pol i u) = .ok r1)
+    (h2 : selectAll t query parents c2 (fun i _ u => pol i u) = .ok r2) :
+    r1.length = r2.length ∧
+    ∀ (i : Nat) (a b : List Nat), r1[i]? = some (Except.ok a) → r2[i]? = some (Except.ok b) →
+      a.Perm b := by
+  unfold selectAll at h1 h2
+  cases hth : thin t query with
+  | error e => rw [hth] at h1; cases h1
+  | ok th =>
+    rw [hth] at h1 h2
+    simp only [Except.ok.injEq] at h1 h2
+    subst h1 h2
+    refine ⟨by simp, ?_⟩
+    intro i a b hi1 hi2
+    simp only [List.getElem?_map, List.getElem?_zipIdx, Option.map_eq_some_iff] at hi1 hi2
+    obtain ⟨⟨p1, j1⟩, ⟨p, hp, hpe⟩, hs1⟩ := hi1
+    obtain ⟨⟨p2, j2⟩, ⟨p', hp', hpe'⟩, hs2⟩ := hi2
+    rw [hp] at hp'
+    simp only [Option.some.injEq] at hp'
+    subst hp'
+    simp only [Prod.mk.injEq] at hpe hpe'
+    obtain ⟨rfl, rfl⟩ := hpe
+    obtain ⟨rfl, rfl⟩ := hpe'
+    simp only at hs1 hs2
+    cases hb1 : isBehemoth t.pairs.length c1 p.leaves <;>
+      cases hb2 : isBehemoth t.pairs.length c2 p.leaves <;>
+      rw [hb1] at hs1 <;> rw [hb2] at hs2
+    · rw [hs1] at hs2; cases hs2; exact List.Perm.refl _
+    · exact (indep ht hth hs2 hs1).symm
+    · exact indep ht hth hs1 hs2
+    · rw [hs1] at hs2; cases hs2; exact List.Perm.refl _
+
+example : selectParent sampleThin [2, 0] false 1 (fun _ u => lastArgmax u) = .ok [2, 0] := by
+  decide
 
 end CTM.C12
